@@ -542,11 +542,42 @@ def setparams_structure(model: Model, O: RuleResult):
         O.bad(f, loops[0] if loops else f.node, "setparams must iterate zip(paramnames, params)")
 
 
+def _names_semantic(init):
+    """abstract run of TorchNNPureFunction._get_all_obj_params_init over a module with three and with no parameters: True when
+    self.names and the returned list are the complete, ordered names / tensors; a message when they are not; None when the body is
+    outside the interpreter's vocabulary (the structural rule decides then)"""
+    from ..domains.kinds import AObj, KindInterp
+    from ..domains.dictsem import Unsupported, Raised, _Return, Tok
+    me = init.params()[0]
+    for n in (3, 0):
+        pairs = [("w%d" % i, Tok("w%d" % i, is_tensor=True, requires_grad=(i != 1))) for i in range(n)]
+        mod = AObj("module", ("torch.nn.Module",))
+        mod.methods["named_parameters"] = (lambda pairs=pairs: list(pairs))
+        it = KindInterp({"%s.obj" % me: mod})
+        try:
+            try:
+                it.run(init.node.body)
+                ret = None
+            except _Return as r:
+                ret = r.v
+        except Unsupported:
+            return None
+        except Raised as e:
+            return "raises for a module with %d parameters: %s" % (n, e)
+        names = it.env.get("%s.names" % me)
+        if not (isinstance(names, (list, tuple)) and list(names) == [p[0] for p in pairs]):
+            return "a module with parameters %s gives self.names = %r" % ([p[0] for p in pairs], names)
+        if not (isinstance(ret, (list, tuple)) and len(ret) == n and all(x is p[1] for x, p in zip(ret, pairs))):
+            return "a module with parameters %s returns %r" % ([p[0] for p in pairs], ret)
+    return True
+
+
 def _order(model: Model, O: RuleResult):
     init = model.func(PF, "TorchNNPureFunction._get_all_obj_params_init")
     setter = model.func(PF, "TorchNNPureFunction._set_all_obj_params")
     src = ast.unparse(init.node)
-    names_from = [s for s in own_nodes(init.node) if isinstance(s, ast.Assign) and any(isinstance(t, ast.Attribute) and t.attr == "names" for t in s.targets)]
+    names_from = [s for s in own_nodes(init.node) if isinstance(s, (ast.Assign, ast.AnnAssign))
+                  and any(isinstance(t, ast.Attribute) and t.attr == "names" for t in (s.targets if isinstance(s, ast.Assign) else [s.target]))]
     # every registered parameter is captured: the source is named_parameters() itself, not a filtered view of it (a partial
     # delete/re-register cycle moves the cycled parameters behind the others)
     filt = [n for n in ast.walk(init.node) if isinstance(n, (ast.ListComp, ast.GeneratorExp, ast.SetComp, ast.DictComp)) and "named_parameters()" in ast.unparse(n)
@@ -554,7 +585,13 @@ def _order(model: Model, O: RuleResult):
     filt += [n for n in ast.walk(init.node) if isinstance(n, ast.Call) and ast.unparse(n.func) == "filter" and "named_parameters()" in ast.unparse(n)]
     cond_skip = [n for n in ast.walk(init.node) if isinstance(n, ast.For) and "named_parameters()" in ast.unparse(n.iter)
                  and any(isinstance(x, (ast.Continue, ast.If)) for b in n.body for x in ast.walk(b))]
-    if "named_parameters()" in src and names_from and not filt and not cond_skip:
+    sem = _names_semantic(init)
+    if sem is True:
+        O.ok(init.fq, "ALL parameter names are captured from named_parameters() (registration order, unfiltered) into self.names [abstract run over 3 and 0 parameters]")
+    elif isinstance(sem, str):
+        O.bad(init, init.node, "parameter names must be captured from named_parameters() unfiltered: with some parameters left out the delete/re-register cycle is partial and "
+              "re-registers the cycled parameters behind the others (registration order of the caller's module changes) [%s]" % sem)
+    elif "named_parameters()" in src and names_from and not filt and not cond_skip:
         O.ok(init.fq, "ALL parameter names are captured from named_parameters() (registration order, unfiltered) into self.names")
     else:
         O.bad(init, (filt + cond_skip + [init.node])[0] if not isinstance((filt + cond_skip + [init.node])[0], ast.expr) else enclosing_stmt((filt + cond_skip)[0]),
